@@ -36,6 +36,7 @@ type c15Op struct {
 	kind  string // bfd, sleep, send
 	in    uint16 // send: ingress interface
 	xover bool   // send: the packet changes segment at this router (in == link: U-turn)
+	alert bool   // send: the hop field carries the egress router alert (only towards the sibling-owned egress)
 	link  uint16
 	state layers.BFDState
 	txMs  int
@@ -50,7 +51,7 @@ func (o c15Op) String() string {
 	case "sleep":
 		return fmt.Sprintf("sleep(%dms)", o.ms)
 	}
-	return fmt.Sprintf("send(ingress %d, egress %d, segment change %v)", o.in, o.link, o.xover)
+	return fmt.Sprintf("send(ingress %d, egress %d, segment change %v, egress alert %v)", o.in, o.link, o.xover, o.alert)
 }
 
 func bfdRFC(local, recv layers.BFDState) layers.BFDState {
@@ -122,9 +123,13 @@ func xoverPacket(key []byte, in, out uint16, now time.Time) ([]byte, error) {
 // transitPacket forges a packet in the middle of a 3-hop segment entering through in and leaving
 // through out.
 func transitPacket(key []byte, in, out uint16, now time.Time) ([]byte, error) {
+	return transitPacketAlert(key, in, out, now, false)
+}
+
+func transitPacketAlert(key []byte, in, out uint16, now time.Time, egressAlert bool) ([]byte, error) {
 	info := path.InfoField{ConsDir: true, SegID: 0x4711, Timestamp: uint32(now.Unix() - 10)}
 	h0 := path.HopField{ExpTime: 63, ConsEgress: 5}
-	h1 := path.HopField{ExpTime: 63, ConsIngress: in, ConsEgress: out}
+	h1 := path.HopField{ExpTime: 63, ConsIngress: in, ConsEgress: out, EgressRouterAlert: egressAlert}
 	h2 := path.HopField{ExpTime: 63, ConsIngress: 6}
 	h1.Mac = ref.HopMAC(key, info.SegID, info.Timestamp, h1.ExpTime, in, out)
 	dec := &scion.Decoded{Base: scion.Base{PathMeta: scion.MetaHdr{CurrHF: 1, SegLen: [3]uint8{3}}, NumINF: 1, NumHops: 3},
@@ -148,7 +153,7 @@ func TestC15(t *testing.T) {
 		"Non-trivial: history in which a BFD link went up and down again with packets sent in each phase.")
 	defer rec.Flush(t)
 	rec.Assume("received AdminDown is not generated here (its handling is the listed C16 finding)", "detection times carry a sub-millisecond fraction so that no action lands on a deadline")
-	rec.Require("ext_down_scmp", "ext_up_forwarded", "sib_down_scmp", "sib_up_forwarded", "nobfd_forwarded", "up_then_down_again", "segment_change", "u_turn")
+	rec.Require("ext_down_scmp", "ext_up_forwarded", "sib_down_scmp", "sib_up_forwarded", "nobfd_forwarded", "up_then_down_again", "segment_change", "u_turn", "egress_alert_to_sibling", "arrived_over_sibling_link")
 	rapid.Check(t, func(rt *rapid.T) {
 		n := rapid.IntRange(1, 40).Draw(rt, "n")
 		var ops []c15Op
@@ -167,10 +172,12 @@ func TestC15(t *testing.T) {
 					in    uint16
 					xover bool
 				}
-				opts := map[uint16][]via{11: {{12, false}, {31, true}, {32, true}}, 12: {{11, false}}, 13: {{12, false}, {31, true}}, 14: {{12, false}},
-					31: {{21, false}, {31, true}, {32, true}, {11, true}}}[eg]
+				// (ingress 14: the packet reaches this router over the link from sibling router R3)
+				opts := map[uint16][]via{11: {{12, false}, {31, true}, {32, true}, {14, false}}, 12: {{11, false}}, 13: {{12, false}, {31, true}}, 14: {{12, false}},
+					31: {{21, false}, {31, true}, {32, true}, {11, true}, {24, false}}}[eg]
 				v := opts[rapid.IntRange(0, len(opts)-1).Draw(rt, "ingress")]
-				ops = append(ops, c15Op{kind: "send", link: eg, in: v.in, xover: v.xover})
+				alert := eg == 13 && !v.xover && rapid.Bool().Draw(rt, "egressAlert")
+				ops = append(ops, c15Op{kind: "send", link: eg, in: v.in, xover: v.xover, alert: alert})
 			}
 		}
 		var fail string
@@ -272,7 +279,13 @@ func TestC15(t *testing.T) {
 							labels["u_turn"] = true
 						}
 					} else {
-						raw, err = transitPacket(l.key, in, op.link, time.Now())
+						raw, err = transitPacketAlert(l.key, in, op.link, time.Now(), op.alert)
+						if op.alert {
+							labels["egress_alert_to_sibling"] = true
+						}
+						if in == 14 || in == 24 {
+							labels["arrived_over_sibling_link"] = true
+						}
 					}
 					if err != nil {
 						fail = "harness: " + err.Error()
